@@ -8,6 +8,7 @@ import re
 from ..core import Run
 from ..decide import formula, path_constraints, satisfiable, single_bool_defs
 from ..effects import Effects
+from ..flatten import flat_info
 from ..paths import enum_paths, first_index
 from ..pymodel import PyModel, walk_no_nested
 from ..util import base_name, kwarg, mutated_names, names_loaded
@@ -28,7 +29,9 @@ def check(run: Run) -> None:
     run.rule("C16.R4", "who may overwrite: only call sites fed by a configuration field pass should_overwrite_existing")
     run.rule("C16.R5", "date-like captures: the recogniser regex and the strptime format of _var_map_value agree on YYYYMMDD")
     run.rule("C16.R6", "the rendered template is rebuilt from the matched template on every call (no stale cached copy)")
-    fi = model.func(F_INIT)
+    # the operation = init_from_template with its private helpers folded back in (extracting `_first_matching_template`
+    # or `_render_to_file` changes no behaviour and must not change the verdict)
+    fi = flat_info(model, F_INIT)
     fn = fi.node
     params = [a.arg for a in fi.params()]
     ow = [a.arg for a in fi.params() if "overwrite" in a.arg]
@@ -82,7 +85,7 @@ def check(run: Run) -> None:
             run.check("C16.R1", f"write at line {wnode.lineno} unreachable under exists and not overwrite", ok, "init_from_template",
                       wnode, msg, file=FILE, node=wnode, detail=dict(valuation=val, path=p.describe()))
             # R3
-            matched = any(ev[0] == "assume" and ev[2] is True and isinstance(ev[1], (ast.NamedExpr, ast.Call, ast.Name)) and "match" in ast.unparse(ev[1]) for ev in p.events[:idx])
+            matched = any(ev[0] == "assume" and _asserts_match(ev[1], ev[2]) for ev in p.events[:idx])
             explicit = _explicit_template(p, idx, params)
             run.check("C16.R3", f"write at line {wnode.lineno} only after a pattern matched or with an explicit template", matched or explicit,
                       "init_from_template", "write without match", "a path writes the target although no pattern matched and no template was given",
@@ -128,17 +131,24 @@ def check(run: Run) -> None:
     run.sample(dict(rule="C16.R4", call_sites=[f"{c.qualname}:{k.lineno}" for c, k in sites]))
 
     # ---- R5
-    fv = model.func(F_VARVAL)
-    pats = [n for n in walk_no_nested(fv.node) if isinstance(n, ast.Call) and ast.unparse(n.func) in ("re.match", "re.fullmatch", "re.search")]
+    from ..util import regex_tests
+
+    fv = flat_info(model, F_VARVAL)
+    rts = regex_tests(fv)
+    pats = [c for c, _, _ in rts]
     fmts = [n for n in walk_no_nested(fv.node) if isinstance(n, ast.Call) and ast.unparse(n.func).endswith("strptime")]
-    if len(pats) == 1 and len(fmts) == 1 and isinstance(pats[0].args[0], ast.Constant) and isinstance(fmts[0].args[1], ast.Constant):
-        rx, fmt = pats[0].args[0].value, fmts[0].args[1].value
+    fmt_const = None
+    if len(fmts) == 1 and len(fmts[0].args) > 1:
+        a1 = fmts[0].args[1]
+        fmt_const = a1.value if isinstance(a1, ast.Constant) else (fv.module.assigns[a1.id].value if isinstance(a1, ast.Name) and isinstance(fv.module.assigns.get(a1.id), ast.Constant) else None)
+    if len(pats) == 1 and len(fmts) == 1 and fmt_const is not None:
+        rx, fmt = rts[0][1], fmt_const
         import re._parser as sp  # regex AST, no matching performed
 
         items = list(sp.parse(rx))
         width = 0
-        anchored_start = bool(items) and str(items[0][0]) == "AT" or ast.unparse(pats[0].func) in ("re.match", "re.fullmatch")
-        anchored_end = bool(items) and str(items[-1][0]) == "AT" or ast.unparse(pats[0].func) == "re.fullmatch"
+        anchored_start = bool(items) and str(items[0][0]) == "AT" or rts[0][2] in ("match", "fullmatch")
+        anchored_end = bool(items) and str(items[-1][0]) == "AT" or rts[0][2] == "fullmatch"
         digits_only = True
         for op, av in items:
             if str(op) == "AT":
@@ -219,4 +229,14 @@ def _explicit_template(p, idx: int, params: list[str]) -> bool:
                 is_none = isinstance(e.ops[0], (ast.Is, ast.Eq)) == pol
                 if src in params and "template" in src and not is_none:
                     return True
+    return False
+
+
+def _asserts_match(e: ast.expr, pol: bool) -> bool:
+    """The assumption says that a pattern match succeeded (`if m`, `if (m := p.match(..))`, `if m is not None`)."""
+    if isinstance(e, ast.Compare) and len(e.ops) == 1 and isinstance(e.comparators[0], ast.Constant) and e.comparators[0].value is None:
+        positive = isinstance(e.ops[0], (ast.IsNot, ast.NotEq))
+        return "match" in ast.unparse(e.left) and (positive == pol)
+    if isinstance(e, (ast.NamedExpr, ast.Call, ast.Name, ast.Attribute)):
+        return pol is True and "match" in ast.unparse(e)
     return False
